@@ -91,15 +91,19 @@ func (i ImportNames) TypeName(t types.Type) string {
 			// A predeclared type such as "error".
 			return typ.Obj().Name()
 		}
-		if pkgName, ok := i[typ.Obj().Pkg().Path()]; ok {
+		if pkgName, ok := i[typ.Obj().Pkg().Path()]; ok && pkgName != "." {
 			return fmt.Sprintf("%v.%v", pkgName, typ.Obj().Name())
 		}
+		// A type of the setup file's own package, or of a dot-imported one.
 		return typ.Obj().Name()
 	default:
 		// An unnamed composite type (slice, array, map, chan, func, struct...): named types
 		// inside it are qualified the same way as above.
 		return types.TypeString(t, func(pkg *types.Package) string {
-			return i[pkg.Path()]
+			if name := i[pkg.Path()]; name != "." {
+				return name
+			}
+			return ""
 		})
 	}
 }
